@@ -30,7 +30,7 @@ var c08Pool = []c08Op{
 	{"mutation", "mutation { incr(by: 3) }"},
 	{"introspection", "{ __schema { queryType { name } } }"},
 	{"invalid", "{ nope }"},
-	{"svc-errors", "{ v { a } }"},          // the service answers this one with GraphQL errors
+	{"svc-errors", "{ v { a } }"},            // the service answers this one with GraphQL errors
 	{"transport-fault", "{ v { w { b } } }"}, // the call carrying this one fails at transport level
 	{"slow", "{ n1s { n2s { owner { phone } } } }"},
 }
